@@ -35,11 +35,8 @@ Check C13_mergepatch_lazy :
   forall n t pf out k,
     wf_fields (obj_fields t) -> wf_fields pf ->
     mp_impl (S n) t (VObj pf) = Ok (VObj out) ->
-    has_ex (obj_fields t) k false = true -> lookup k pf = None ->
+    has_ex (obj_fields t) k false = true -> vlookup k pf = None ->
     lookup k out = Some (false, value_of k (obj_fields t)).
-Check C13_mergepatch_hidden_refuted :
-  exists t p, bomb_free t = true /\ bomb_free p = true /\
-              mp_impl (fuel_for p) t p <> mp_def (fuel_for p) t p.
 Check C13_mergepatch_eager_refuted :
   exists t p, mp_def (fuel_for p) t p = Ok (VObj [(lit "a", (false, VBomb 0)); (lit "b", (false, VNum 2))]) /\
               mp_impl (fuel_for p) t p = Err ERun.
@@ -64,8 +61,6 @@ Check C13_type_partition :
               (forall t', ty_name t' = ty_name t -> t' = t).
 Check C13_mapwithkey_lazy_refuted :
   exists f fs, wf_fields fs /\ map_with_key_spec f fs <> map_with_key_impl f fs.
-Check C13_keysvalues_lazy_refuted :
-  exists fs, wf_fields fs /\ keys_values_spec false fs <> keys_values_impl false fs.
 Check C13_removekey_self_refuted :
   exists fs k sd, wf_fields fs /\ remove_key_spec fs k sd <> remove_key_impl fs k sd.
 
@@ -81,7 +76,8 @@ Check eq_refl : rfc7396 (VObj [(lit "a", (false, VStr (lit "b"))); (lit "c", (fa
 Check eq_refl : rfc7396 (VNum 1) (VArr [VNull]) = VArr [VNull].
 Check eq_refl : mp_def 3 (VObj [(lit "a", (false, VNum 1))]) (VObj [(lit "a", (true, VNull))])
                 = Ok (VObj [(lit "a", (false, VNum 1))]).
-Check eq_refl : mp_impl 3 (VObj [(lit "a", (false, VNum 1))]) (VObj [(lit "a", (true, VNull))]) = Ok (VObj []).
+Check eq_refl : mp_impl 3 (VObj [(lit "a", (false, VNum 1))]) (VObj [(lit "a", (true, VNull))])
+                = Ok (VObj [(lit "a", (false, VNum 1))]).
 Check eq_refl : json (VObj [(lit "b", (false, VNull)); (lit "a", (false, VNull))]) = false.
 Check eq_refl : json (VObj [(lit "a", (true, VNull))]) = false.
 Check eq_refl : clean (VArr [VObj [(lit "a", (true, VNum 1))]]) = false.
